@@ -102,7 +102,9 @@ func compare(m *model, p *prediction, before, after map[string]map[string]string
 	}
 	sort.Strings(akeys)
 	for _, k := range akeys {
-		if p.rows[k] == nil {
+		if p.rows[k] == nil && p.unwrittenKeys[k] {
+			out = append(out, problem{Row: k, Class: "omitted-key-written", Got: fmt.Sprint(after[k]), Want: "a row with a database-assigned key", Why: "the key column is omitted / not selected, the key carried by the record must not be written"})
+		} else if p.rows[k] == nil {
 			out = append(out, problem{Row: k, Class: "unexpected-row", Got: fmt.Sprint(after[k]), Want: "no such row", Why: "no record of the operation creates this row"})
 		}
 	}
@@ -131,9 +133,9 @@ func compare(m *model, p *prediction, before, after map[string]map[string]string
 					out = append(out, problem{Row: k, Col: f.col, Class: e.cls, Want: e.want + " (unchanged)", Got: g, Before: b, Why: e.why})
 				}
 			case mMust:
-				if g != e.want {
+				if g != e.want && (e.alt == "" || g != e.alt) {
 					cls := "wrong-value-written"
-					if g == b || (re.isNew && g == "NULL") {
+					if g == b || (re.isNew && (g == "NULL" || g == e.absent)) {
 						cls = "missing-write"
 					}
 					out = append(out, problem{Row: k, Col: f.col, Class: cls, Want: e.want, Got: g, Before: b, Why: e.why})
@@ -196,6 +198,12 @@ func run(c *core.Ctx) {
 		}
 		if f.autoCre != "" {
 			tags["autoCreate:"+f.autoCre] = true
+		}
+		if f.def != "" {
+			tags["default:"+f.def] = true
+			if !f.canCreate && !f.free {
+				tags["default:"+f.def+"+no-create-permission"] = true
+			}
 		}
 	}
 	for t := range tags {
@@ -262,12 +270,26 @@ func run(c *core.Ctx) {
 			continue
 		}
 		// what the case exercised
-		var nMust, nDenied, nNarrow, nRefresh, nZero int
+		var nMust, nDenied, nNarrow, nRefresh, nZero, nDefKept, nDefZero int
+		defsHit := map[string]bool{}
 		permsHit := map[string]bool{}
 		for _, k := range p.order {
 			re := p.rows[k]
 			for _, f := range m.fields {
 				e := re.cells[f.col]
+				if re.isNew && f.def != "" {
+					// a field with a default on an insert: a non-zero value kept out, or a zero value defaulted
+					if e.mode == mKeep && (e.cls == "denied-column-written" || e.cls == "omitted-column-written" || e.cls == "unselected-column-written") {
+						if rc := recOfKey(m, o, k); rc != nil {
+							if mv, ok := rc.vals[f.idx]; ok && (o.isMap || !isGoZero(f.k, mv.lv)) {
+								nDefKept++
+								defsHit[f.def] = true
+							}
+						}
+					} else if e.mode == mMust && e.alt != "" {
+						nDefZero++
+					}
+				}
 				switch {
 				case e.mode == mMust && !f.pk:
 					nMust++
@@ -288,6 +310,14 @@ func run(c *core.Ctx) {
 		c.Add("cells_narrowed_checked", nNarrow)
 		c.Add("cells_refresh_checked", nRefresh)
 		c.Add("cells_zero_or_untracked_checked", nZero)
+		c.Add("cells_default_field_value_kept_out_on_insert", nDefKept)
+		c.Add("cells_default_field_zero_value_on_insert", nDefZero)
+		if o.dropKey {
+			c.Inc("ops_create_key_carried_but_omitted")
+		}
+		if nDefKept > 0 && len(o.recs) > 1 {
+			c.Inc("ops_batch_default_field_value_kept_out")
+		}
 		c.Add("rows_outside_target_checked", len(m.rows)-len(p.target))
 		if len(p.target) > 0 && len(p.target) < len(m.rows) {
 			c.Inc("ops_strict_subset_target")
@@ -320,13 +350,32 @@ func run(c *core.Ctx) {
 			if len(spell) > 2 {
 				spell = spell[:2]
 			}
-			c.Shape(o.kind, o.tform, o.selMode, spell, ph, fm, nMust > 0, nRefresh > 0, nNarrow > 0, nZero > 0, len(p.target) > 1, m.pk.k.name, len(m.pks))
+			var dh []string
+			for t := range defsHit {
+				dh = append(dh, t)
+			}
+			sort.Strings(dh)
+			c.Shape(o.kind, o.tform, o.selMode, spell, ph, fm, nMust > 0, nRefresh > 0, nNarrow > 0, nZero > 0, len(p.target) > 1, m.pk.k.name, len(m.pks), dh, o.dropKey)
 			if c.WantSample() && i == 5 {
 				c.Sample(map[string]interface{}{"model": m.decls(), "operation": desc, "target_rows": p.target, "sql": sqlOf(evs),
 					"checked": fmt.Sprintf("%d written cells, %d denied, %d narrowed, %d refreshed, %d rows outside the target unchanged", nMust, nDenied, nNarrow, nRefresh, len(m.rows)-len(p.target))})
 			}
 		}
 	}
+}
+
+// recOfKey: the record of a create-type operation that produced the new row k (records are
+// inserted in order; rows with database-assigned keys are matched by position).
+func recOfKey(m *model, o *op, k string) *rec {
+	for _, rc := range o.recs {
+		if key, ok := m.recKey(rc); ok && normL(key) == k {
+			return rc
+		}
+	}
+	if len(o.recs) > 0 {
+		return o.recs[0] // database-assigned keys: batches are uniform per default field (uniformDefaults)
+	}
+	return nil
 }
 
 func contains(xs []string, x string) bool {
